@@ -32,7 +32,7 @@ type C07Scn struct {
 	Transport string   `json:"transport"` // mem (datagram link) | frame (framed byte stream cut into chunks)
 	Chunks    []int    `json:"chunks,omitempty"`
 	Pre       []C07Msg `json:"pre"`       // before the handshake
-	Handshake string   `json:"handshake"` // valid | none | as-w2 (announces the ID of a node that attaches later)
+	Handshake string   `json:"handshake"` // valid | none | as-w2 (announces the ID of a node that attaches later) | as-w (announces the ID of the connected well-behaved peer)
 	Post      []C07Msg `json:"post"`      // after the handshake
 }
 
@@ -64,7 +64,8 @@ func execC07(b []byte) vx.Verdict {
 	defer m.Close()
 	sut := m.StartNode(c07SUT)
 	w := m.StartNode(c07W)
-	m.AddLink(&vx.Link{A: c07SUT, B: c07W, CostA: 1, CostB: 1, Spec: vx.LinkSpec{Ordered: true}})
+	goodLink := &vx.Link{A: c07SUT, B: c07W, CostA: 1, CostB: 1, Spec: vx.LinkSpec{Ordered: true}}
+	m.AddLink(goodLink)
 	// a bound and continuously read datagram service on the SUT
 	echo, err := sut.N.ListenPacket("echo")
 	if err != nil {
@@ -89,6 +90,7 @@ func execC07(b []byte) vx.Verdict {
 	}); msg != "" {
 		return vx.Inconclusive("setup did not converge: %s", msg)
 	}
+	goodGen := goodLink.Generation()
 	// ---- the hostile peer
 	var hsend func(b []byte, raw bool)
 	var hcut func()
@@ -233,7 +235,13 @@ func execC07(b []byte) vx.Verdict {
 	if s.Handshake == "as-w2" {
 		hid = c07W2
 	}
-	if s.Handshake != "none" {
+	if s.Handshake == "as-w" {
+		hello := vx.EncodeRoute(&vx.RoutingUpdate{NodeID: c07W, UpdateID: "hs-imp", UpdateEpoch: 7 << 24, UpdateSequence: 1,
+			Connections: map[string]float64{c07SUT: 1}, ForwardingNode: c07W})
+		hsend(hello, false)
+		time.Sleep(300 * time.Millisecond)
+		labels = append(labels, "impostor-of-connected-peer")
+	} else if s.Handshake != "none" {
 		hello := vx.EncodeRoute(&vx.RoutingUpdate{NodeID: hid, UpdateID: "hs-1", UpdateEpoch: 7 << 24, UpdateSequence: 1,
 			Connections: map[string]float64{c07SUT: 1}, ForwardingNode: hid})
 		hsend(hello, false)
@@ -262,7 +270,17 @@ func execC07(b []byte) vx.Verdict {
 	if !vx.WithDeadline(5*time.Second, func() { st = sut.N.Status() }) {
 		return vx.Violation("not-wedged", "C07/status-blocked", "Status() of the node did not return within 5 s after the hostile session (messages: %s)", classes(s))
 	}
-	_ = st
+	// the well-behaved peer's own session was left alone: nothing another peer sends is a reason to drop it
+	if g := goodLink.Generation(); g != goodGen {
+		return vx.Violation("still-serves-peers", "C07/good-peer-session-dropped", "the session between the node and its well-behaved peer was ended and re-established %d time(s) during the hostile session (messages: %s)", g-goodGen, classes(s))
+	}
+	listed := false
+	for _, cn := range st.Connections {
+		listed = listed || cn.NodeID == c07W
+	}
+	if !listed {
+		return vx.Violation("still-serves-peers", "C07/good-peer-connection-forgotten", "right after the hostile session the node no longer lists its well-behaved peer (whose session never ended) among its connections: %v (messages: %s)", st.Connections, classes(s))
+	}
 	// w still reaches the node
 	if msg := pingUntil(w.N, c07SUT, 25*time.Second); msg != "" {
 		return vx.Violation("still-serves-peers", "C07/old-peer-cannot-ping", "the well-behaved peer can no longer ping the node: %s (messages: %s)", msg, classes(s))
@@ -294,7 +312,7 @@ func execC07(b []byte) vx.Verdict {
 			malformedAfter = true
 		}
 	}
-	return vx.OK(established && malformedAfter, dedup(labels)...)
+	return vx.OK((established && malformedAfter) || s.Handshake == "as-w", dedup(labels)...)
 }
 
 func classes(s C07Scn) string {
